@@ -1,4 +1,5 @@
 import Swat4.Lemmas.Browsing
+import Swat4.Lemmas.BrowserReqBridge
 import Swat4.Properties.C02
 import Swat4.Spec.ServerList
 import Swat4.Spec.ServerListExpected
@@ -9,6 +10,10 @@ import Swat4.Gen.Facts
 Property theorems only.  `Browsing.*` is the model of `browsing.NewRequest`, `params.Marshal` and
 `browser.packServers`/`process`; `SBList.sdkDecode` is the SDK-side reference decoder and
 `SBList.encodeReq` the definition of a well-formed request, both written independently of it.
+
+`Lemmas/BrowserReqBridge.lean` (imported; `Swat4.BrowserReqBridge.newRequest_eq`) ties `Browsing.parseRequest`
+to the second, independently written model of `browsing.NewRequest` that C06 uses: same outcome class and
+same field list on every byte string.
 -/
 namespace Swat4.C01
 open Swat4 Swat4.Browsing Swat4.SBList
